@@ -154,6 +154,9 @@ func (iter *queryIterator) NextBytes() []byte {
 		return nil
 	}
 	if !iter.rows.Next() {
+		if err := iter.rows.Err(); err != nil {
+			iter.err = err // the query failed part-way: the rows so far are not the whole result
+		}
 		return nil
 	}
 
